@@ -60,7 +60,7 @@ def one_case(ctx, index: int, rng: random.Random):
 
     rec = ctx.rec
     big = not ctx.quick
-    kind = rng.choice(["edges", "edges", "pairs", "gapped", "gapped", "object", "prepared", "int", "method", "none", "single"])
+    kind = rng.choice(["edges", "edges", "pairs", "gapped", "gapped", "tinygap", "object", "prepared", "int", "method", "none", "single"])
     nmax = 300 if not big else rng.choice([300, 300, 2000])
     n = rng.choice([0, 1, 2, 3, 10, 40, nmax]) if rng.random() < 0.5 else rng.randint(0, nmax)
     kwargs = {}
@@ -71,21 +71,28 @@ def one_case(ctx, index: int, rng: random.Random):
         bins_arg = _prepared_object(rng)
         pairs = np.asarray(bins_arg.bins, dtype=float).tolist()
         data = gen.data_for_bins(rng, pairs, n, nan_ok=rng.random() < 0.3)
-    elif kind in ("edges", "pairs", "gapped", "object", "single"):
+    elif kind in ("edges", "pairs", "gapped", "tinygap", "object", "single"):
         nb = 1 if kind == "single" else (rng.randint(1, 12) if not big else rng.randint(1, 60))
         if kind == "gapped":
             pairs = gen.gapped_pairs(rng, max(2, min(nb, 12)))
+        elif kind == "tinygap":  # real gaps far below numpy's allclose tolerance: still gaps for membership
+            pairs = gen.tiny_gapped_pairs(rng, max(2, min(nb, 6)))
         else:
             pairs = gen.pairs_from_edges(gen.edges(rng, nb))
         cons = gen.is_consecutive_pairs(pairs)
         if kind == "edges" or kind == "single":
             e = [p[0] for p in pairs] + [pairs[-1][1]]
             bins_arg = np.array(e) if rng.random() < 0.8 else tuple(e)
-        elif kind in ("pairs", "gapped"):
+        elif kind in ("pairs", "gapped", "tinygap"):
             bins_arg = np.array(pairs) if rng.random() < 0.8 else [list(p) for p in pairs]
         else:
             bins_arg, _ = _binning_object(rng, pairs, cons)
         data = gen.data_for_bins(rng, pairs, n, nan_ok=rng.random() < 0.4)
+        if kind == "tinygap" and data:
+            gaps = [(pairs[i][1], pairs[i + 1][0]) for i in range(len(pairs) - 1) if pairs[i][1] != pairs[i + 1][0]]
+            for _ in range(rng.randint(1, 4)):
+                a, b = rng.choice(gaps)
+                data[rng.randrange(len(data))] = rng.choice([a, (a + b) / 2, float(np.nextafter(b, -np.inf)), float(np.nextafter(a, np.inf))])
     else:
         # bins derived from the data: at least two distinct finite values
         n = max(n, 2)
